@@ -66,6 +66,37 @@ func (x *Exec) externCall(st *State, fn *ssa.Function, args []Val, pos token.Pos
 		x.ownedCtr++
 		st.owned[x.ownedCtr] = &OwnedState{content: fv, depth: x.loopDepth(st)}
 		return one(&Owned{id: x.ownedCtr, off: IntLit(0), n: App("Int", "len_Str", fv), T: types.NewSlice(types.Typ[types.String])})
+	case "strings.Map", "strings.FieldsFunc", "strings.TrimFunc", "strings.IndexFunc":
+		// a higher-order helper applied to a capture-free function literal: the literal can only compute on its argument,
+		// so the call is a (left unspecified) value of its result type and has no effect
+		pure := false
+		fi := 0
+		if name != "strings.Map" {
+			fi = 1
+		}
+		switch f := args[fi].(type) {
+		case *FuncRef:
+			pure = len(f.Fn.FreeVars) == 0 && x.effectFree(f.Fn)
+		case *Closure:
+			pure = len(f.Bind) == 0 && x.effectFree(f.Fn)
+		case *Term:
+			if cl, ok := st.closures[f.S]; ok {
+				pure = len(cl.Bind) == 0 && x.effectFree(cl.Fn)
+			}
+			for id, g := range x.funcById {
+				if f.S == IntLit(int64(id)).S {
+					pure = len(g.FreeVars) == 0 && x.effectFree(g)
+				}
+			}
+		}
+		if !pure {
+			x.unsupported(st, pos, "%s with a function that captures variables or has effects", name)
+		}
+		use(name + " applied to a capture-free, effect-free literal: an unspecified value of the result type")
+		rt := fn.Signature.Results().At(0).Type()
+		res := st.Fresh("hof", r.SortOf(rt))
+		res.T = rt
+		return one(res)
 	case "strings.TrimSpace":
 		use("strings.TrimSpace: uninterpreted function strings_TrimSpace(s), no longer than s")
 		r.DeclFunc("strings_TrimSpace", []string{"Str"}, "Str")
@@ -143,7 +174,78 @@ func (x *Exec) externCall(st *State, fn *ssa.Function, args []Val, pos token.Pos
 		st.Assume(tFalse)
 		return nil, true
 	}
+	// generic fallback: a pure function of package strings / strconv / unicode over basic values (string, int, bool,
+	// byte, rune, []string) with one such result is an uninterpreted function of its arguments
+	if pk := fn.Pkg; pk != nil && fn.Signature.Recv() == nil {
+		switch pk.Pkg.Path() {
+		case "strings", "strconv", "unicode", "unicode/utf8", "path", "path/filepath":
+			sig := fn.Signature
+			basic := func(t types.Type) bool {
+				switch u := t.Underlying().(type) {
+				case *types.Basic:
+					return u.Info()&(types.IsString|types.IsInteger|types.IsBoolean) != 0
+				case *types.Slice:
+					b, ok := u.Elem().Underlying().(*types.Basic)
+					return ok && b.Kind() == types.String
+				}
+				return false
+			}
+			ok := sig.Results().Len() == 1 && basic(sig.Results().At(0).Type()) && !sig.Variadic()
+			for i := 0; ok && i < sig.Params().Len(); i++ {
+				ok = basic(sig.Params().At(i).Type())
+			}
+			if ok {
+				fname := strings.NewReplacer(".", "_", "/", "_").Replace(name)
+				use(name + ": uninterpreted pure function " + fname + " of its arguments")
+				var as []*Term
+				var sorts []string
+				for i := range args {
+					t := T(i)
+					as = append(as, t)
+					sorts = append(sorts, t.Sort)
+				}
+				rt := sig.Results().At(0).Type()
+				rs := r.SortOf(rt)
+				r.DeclFunc(fname, sorts, rs)
+				return one(mkT(rs, App(rs, fname, as...).S, rt))
+			}
+		}
+	}
 	return nil, false
+}
+
+// effectFree: the function literal contains no store, call, escaping allocation, global access or instruction that can panic
+func (x *Exec) effectFree(f *ssa.Function) bool {
+	for _, b := range f.Blocks {
+		for _, in := range b.Instrs {
+			local := func(v ssa.Value) bool { a, ok := v.(*ssa.Alloc); return ok && !a.Heap }
+			switch in := in.(type) {
+			case *ssa.Call:
+				if b, ok := in.Call.Value.(*ssa.Builtin); !ok || (b.Name() != "ssa:deferstack" && b.Name() != "len") {
+					return false
+				}
+			case *ssa.Go, *ssa.Defer, *ssa.Panic, *ssa.MapUpdate, *ssa.Send, *ssa.MakeClosure, *ssa.Index, *ssa.IndexAddr, *ssa.Slice, *ssa.TypeAssert, *ssa.FieldAddr:
+				return false
+			case *ssa.BinOp:
+				if in.Op == token.QUO || in.Op == token.REM {
+					return false
+				}
+			case *ssa.Alloc:
+				if in.Heap {
+					return false
+				}
+			case *ssa.Store:
+				if !local(in.Addr) {
+					return false
+				}
+			case *ssa.UnOp:
+				if in.Op == token.ARROW || (in.Op == token.MUL && !local(in.X)) {
+					return false
+				}
+			}
+		}
+	}
+	return true
 }
 
 func (x *Exec) ioResult(st *State) []Outcome {
